@@ -46,7 +46,8 @@ def classify(component, what, case):
     if law == "implicit" and "tree-has-nodes-the-rfc-does-not" in feat and "default-case-nested-in-non-default-case" in feat:
         return "F188"
     if law == "accepts" and case.get("errors", "").startswith("Other:") and "userord-default-recreated" in feat:
-        return "F178"
+        # F194: the re-created user-ordered defaults sit in a non-presence container nested in the replaced default container
+        return "F194" if "np-container-given-as-new-instance" in feat and "userord-default-recreated-nested" in feat else "F178"
     if law in ("valdiff-eq", "valdiff-apply") and ("np-container-given-as-new-instance" in feat or "default-np-container-removed" in feat):
         return "F179"
     if law == "implicit" and "missing-defaults-of-a-case-whose-data-sits-in-a-nested-choice" in feat:
@@ -426,7 +427,7 @@ def tree_features(s, tree_tok):
     """features of a validated tree"""
     f = set()
 
-    def walk(nodes, keyless):
+    def walk(nodes, keyless, npdepth=0):
         groups = {}
         for n in nodes:
             if keyless and n.flags & tg.F_DFLT:
@@ -439,10 +440,12 @@ def tree_features(s, tree_tok):
                     # a default-flagged non-presence container of a NON-default case survived the validation although the
                     # case has no explicit data left (it lost its last explicit child during this validation: F189)
                     f.add("default-np-container-left-in-non-default-case")
-            walk(n.kids, keyless or (n.sn.kind == "list" and not n.sn.keys))
+            walk(n.kids, keyless or (n.sn.kind == "list" and not n.sn.keys), npdepth + 1 if n.sn.np_cont() and (n.flags & tg.F_DFLT) else 0)
         for g in groups.values():
             if g[0].sn.kind in ("leaflist", "list") and g[0].sn.is_userord() and any(x.flags & tg.F_DFLT for x in g):
                 f.add("userord-default-instances")
+                if npdepth >= 2:
+                    f.add("userord-default-instances-in-nested-np-container")
     walk(tg.untok(s, tree_tok), False)
     return f
 
@@ -498,7 +501,9 @@ def eval_hist(cx, h, r, l, spec):
                 cx.dist["no-state: state data rejected"] += 1
                 continue
             prev = f.get("T%d" % (vi - 1), "-") if vi else "-"
-            more = ["userord-default-recreated"] if "userord-default-instances" in tree_features(h.s, prev) else []
+            pf = tree_features(h.s, prev)
+            more = ["userord-default-recreated"] if "userord-default-instances" in pf else []
+            more += ["userord-default-recreated-nested"] if "userord-default-instances-in-nested-np-container" in pf else []
             more += schema_features(h.s)
             cx.fail(COMP, "validation %d of the history rejects a valid tree: %s" % (vi, e.split(":")[0]), payload(h, "accepts", vi, errors=e, more=more))
     lf = fields(l) if l[0] == "ok" else {}
